@@ -82,10 +82,11 @@ Inductive enc_case :=
 (* Codec.ProtoToJSON then Codec.JSONToProto into a fresh message (default codec).
    pf / pt: strconv.ParseFloat and time.Parse results for the literals of [out];
    back: the decoded message (None: the decoder returned an error) *)
-| CRound (e : env) (root : bytes) (m : msg)
+| CRound (e : env) (static : bool) (root : bytes) (m : msg)
          (floats : list (bool * N * bytes)) (inner : list (bytes * bytes * option bytes))
          (pf : list (bytes * (option N * option N))) (pt : list (bytes * (Z * Z)))
-         (strict : bool) (out : bytes) (back : option msg) (xcheck : bool).
+         (strict : bool) (out : bytes) (back : option msg) (xcheck : bool)
+         (aback : option (list (bytes * bytes * option bytes))).
 
 Fixpoint table_get {A} (tbl : list (bytes * A)) (k : bytes) : option A :=
   match tbl with
@@ -126,6 +127,14 @@ Definition oneofs_flat_b (e : env) : bool :=
                      | SOneof ps => forallb (fun p => match p_path p with [] => false | _ => true end) ps
                      | _ => true
                      end) e.
+
+(* Codec option WithProtoToAny of a case: None = default codec; Some tbl = the option is on and tbl
+   answers (type name, payload text) -> proto bytes (None: the conversion fails) *)
+Definition any_back_table (t : option (list (bytes * bytes * option bytes))) : option (bytes -> bytes -> outcome bytes) :=
+  match t with
+  | None => None
+  | Some tbl => Some (inner_table tbl)
+  end.
 
 (* every static hypothesis of the round-trip theorem, decided on an environment of the run
    (soundness of the deciders: proofs/CodecEncDecProofs.v) *)
@@ -178,8 +187,10 @@ Definition enc_check (c : enc_case) : bool :=
   | CDateParse s r => option_eqb zzz_eqb (date_from_string s) r
   | CValid s valid => Bool.eqb (is_some (strict_parse s)) valid
   | CDecimal s r => opt_bytes_eqb (dec_normalise s) r
-  | CRound e root m floats inner pf pt strict out back xcheck =>
-      env_static_ok e &&
+  | CRound e static root m floats inner pf pt strict out back xcheck aback =>
+      (* the harness states whether the environment is inside the theorem's static hypotheses
+         (it knows one shape that is not); the decider must agree *)
+      Bool.eqb (env_static_ok e) static &&
       match encode (float_table floats) (inner_table inner) e root m with
       | Ok b =>
           (if strict then bytes_eqb b out
@@ -187,13 +198,17 @@ Definition enc_check (c : enc_case) : bool :=
                 | Some x, Some y => jv_eq_perm (S (length out)) x y
                 | _, _ => false
                 end) &&
-          match decode_text (dec_scalar (float_parse_table pf) (table_get pt)) e root out, back with
+          match decode_text (dec_scalar (float_parse_table pf) (table_get pt)) (any_back_table aback) e root out, back with
           | Ok m', Some mb => msg_eqb m' mb
           | Err _, None => true
           | _, _ => false
           end &&
-          outcome_msg_agree (decode_text (dec_scalar (float_parse_table pf) (table_get pt)) e root out)
-                            (decode_bytes (dec_oracles pf pt) e root out) xcheck
+          (* the decoder family's model is the default codec: compared when this case is *)
+          match aback with
+          | Some _ => true
+          | None => outcome_msg_agree (decode_text (dec_scalar (float_parse_table pf) (table_get pt)) None e root out)
+                                      (decode_bytes (dec_oracles pf pt) e root out) xcheck
+          end
       | _ => false
       end
   end.
